@@ -80,6 +80,7 @@ class CreditsDriver(MachineDriver):
         self.players = 0
         self.capped = False
         self.timer_ambiguous = False    # expiry timers were armed/cancelled while free play was on: not judged
+        self.cum_ambiguous = False      # an expiry passed in such a situation: the pricing window may have been reset
         self.game_stopped_at = None
         self.m.events.add_handler("mode_game_stopped", self._game_stopped)
 
@@ -105,6 +106,13 @@ class CreditsDriver(MachineDriver):
     def _add(self, units, tiering):
         prev = self.units
         if tiering:
+            if self.cum_ambiguous:
+                # an expiry deadline passed where the statement does not fix what it does (game running / free play): the
+                # pricing window may or may not have been reset; follow what the implementation did, judge from then on
+                self.cum_ambiguous = False
+                got = self.m.variables.get_machine_var("credit_units") or 0
+                if got - prev == self.p.value(units) - self.p.value(0) and got - prev != self.p.value(self.cum + units) - self.p.value(self.cum):
+                    self.cum = 0
             gained = self.p.value(self.cum + units) - self.p.value(self.cum)
             self.cum += units
         else:
@@ -177,6 +185,8 @@ class CreditsDriver(MachineDriver):
             if self.timer_ambiguous and (self.cfg["frac"] or self.cfg["exp"]):
                 cands += [self.units - self.units % self.p.per_game, 0]
             if self.exp_at is not None and self.exp_at <= now + EPS:
+                if ambiguous:
+                    self.cum_ambiguous = True
                 self.exp_at = None
                 self.frac_at = None if self.frac_at is not None and self.frac_at <= now + EPS else self.frac_at
                 cands.append(0)
@@ -257,7 +267,7 @@ class CreditsDriver(MachineDriver):
                 self.cum % self.p.window, self.free, g.num_players if g else None,
                 None if self.frac_at is None else r6(self.frac_at - now),
                 None if self.exp_at is None else r6(self.exp_at - now), self.rel_timers(), self.modes_fp(), self.task_fp(),
-                self.timer_ambiguous, (g.player.ball if g.player else None, g.ending) if g else None,
+                self.timer_ambiguous, self.cum_ambiguous, (g.player.ball if g.player else None, g.ending) if g else None,
                 self.m.playfield.balls,
                 simple_state(self.m.modes["credits"], exclude=("earnings", "pricing_table", "credits_config", "data_manager")))
 
